@@ -25,7 +25,8 @@ def main():
         p = os.path.join(so, f)
         if os.path.isfile(p) and os.path.getsize(p) < 400000 and not f.startswith('demo_') and f not in ('demo', 'demo_san', 'demo_so'):
             shutil.copy(p, os.path.join(dst, f))
-    verify = open('/root/scratch/sv_%s.out' % prop).read() if os.path.exists('/root/scratch/sv_%s.out' % prop) else ''
+    vf = '/root/scratch/sv_%s.out' % sid if os.path.exists('/root/scratch/sv_%s.out' % sid) else '/root/scratch/sv_%s.out' % prop
+    verify = open(vf).read() if os.path.exists(vf) else ''
     notes = open(os.path.join(dst, 'NOTES.md')).read() if os.path.exists(os.path.join(dst, 'NOTES.md')) else ''
     runs = []
     for p in [prop] + also:
